@@ -76,13 +76,13 @@ class QuantizerFactory:
         quantizer_impl.StochasticTernary:
             quantizer_impl.StochasticTernary,
         quantizer_impl.StochasticBinary:
-            quantizer_impl.StochasticTernary,
+            quantizer_impl.StochasticBinary,
         quantizer_impl.Bernoulli:
-            quantizer_impl.StochasticTernary,
+            quantizer_impl.Bernoulli,
         quantizer_impl.QuantizedTanh:
-            quantizer_impl.StochasticTernary,
+            quantizer_impl.QuantizedTanh,
         quantizer_impl.QuantizedUlaw:
-            quantizer_impl.StochasticTernary,
+            quantizer_impl.QuantizedUlaw,
         # experimental_quantizer_impl.QuantizedBitsLearnableScale:
             # experimental_quantizer_impl.QuantizedBitsLearnableScale,
         #experimental_quantizer_impl.ParametricQuantizer:
